@@ -31,6 +31,7 @@ Section Scripts.
   Definition script_validate (line : str) : vresult :=
     if contains [35; 35]%N line then VRError
     else if contains [33; 33]%N line then VRInvalid (Some [32; 60; 45; 45; 32; 98; 97; 100]%N)
+    else if contains [126; 126]%N line then VRInvalid (Some [])
     else if contains [63; 63]%N line then VRInvalid None
     else if ends_with line 92 then VRIncomplete
     else if contains [111; 107]%N line then VRValid (Some [32; 102; 105; 110; 101]%N)
